@@ -88,6 +88,11 @@ func c05(w *World) {
 			}
 			return true
 		})
+		if role == "acceptor" && w.W.Chance(1, 3) {
+			// a Logon that is refused first: its Reject is numbered and addressed like everything else
+			cl.Step(cl.Msg("A", LogonFields(100, "0", "", "")...))
+			w.Probe("refused_logon_first")
+		}
 		cl.Step(cl.Msg("A", LogonFields(hb, "0", "", "")...))
 		if !s.IsLogged() {
 			w.Inconclusive = "logon-failed"
